@@ -3,8 +3,10 @@
    F13 (fixed attribute order), F21 (numeric dates, empty strings) and F22 (JSON objects only).
    The pre-repair behaviours stay selectable ([parse_jwt_gen false], [convert_orig],
    [attrs_orig]) so that the refutations of the original code remain checkable.
-   encoding/json is a library ORACLE: [J : bytes -> jres] is what json.Unmarshal into a nil
-   map[string]any returned for those bytes; the harness records it per case.
+   encoding/json is a parameter here: [J : bytes -> jres] is what json.Unmarshal into a nil
+   map[string]any returns for those bytes.  The case runner instantiates it with the reference
+   reader of Model/JwtJson.v (falling back to the answer the harness recorded only where the reader
+   does not decide); the theorems hold for every J.
    Executable definitions only, no proofs. *)
 From WI Require Import Lib.Base Lib.Info Lib.Time Model.Base64.
 From WI Require gen.JwtParams Model.Dispatch Model.Uuid.
